@@ -172,8 +172,8 @@ var funcSpecs = []funcSpec{
 	{rel: "internal/format", name: "(*Stanza).Marshal", abstract: marshalAbstract, opaque: marshalOpaque, threaded: marshalThreaded},
 	{rel: "internal/format", name: "(*Header).MarshalWithoutMAC", abstract: marshalAbstract, opaque: marshalOpaque, threaded: marshalThreaded},
 	{rel: "internal/format", name: "(*Header).Marshal", abstract: append([]string{"format.EncodeToString"}, marshalAbstract...), opaque: marshalOpaque, threaded: marshalThreaded},
-	{rel: "cmd/age", name: "(*lazyOpener).Write", abstract: []string{"os.Create"}, opaque: map[string]string{"os.File": "φ"}},
-	{rel: "cmd/age", name: "(*lazyOpener).Close", opaque: map[string]string{"os.File": "φ"}},
+	{rel: "cmd/age", name: "(*lazyOpener).Write", abstract: []string{"os.Create"}, opaque: map[string]string{"os.File": "φ", "tapeτ": "τ"}, world: true},
+	{rel: "cmd/age", name: "(*lazyOpener).Close", opaque: map[string]string{"os.File": "φ", "tapeτ": "τ"}, world: true},
 	{rel: "cmd/age", name: "decrypt", abstract: []string{"armor.NewReader", "age.Decrypt", "io.Copy"}, exits: []string{"main.errorf", "main.errorWithHint"},
 		opaque: map[string]string{"age.Identity": "ι", "io.Writer": "δ"}, threaded: map[string][]string{"io.Copy": {"out"}}},
 	{rel: "plugin", name: "NewRecipient", opaque: map[string]string{"plugin.ClientUI": "υ"}},
